@@ -91,11 +91,13 @@ class _Den(Contract):
     def judge(self, args, out, models):
         from y0vc import exproracle as xo
         x, y = args["self"], args[self.other]
+        defined_somewhere = False
         for m in models:
             vx, vy = xo.values(x, m), xo.values(y, m)
             for i, (a, b) in enumerate(zip(vx, vy)):
                 if a is None or b is None or (self.op == "div" and b == 0):
                     continue
+                defined_somewhere = True
                 if out[0] == "raise":
                     return f"raised {out[1]} although the operands are defined (and the divisor is non-zero) at assignment #{i}"
                 want = a * b if self.op == "mul" else a / b
@@ -104,6 +106,8 @@ class _Den(Contract):
                     return f"result undefined at assignment #{i} where the operands are defined"
                 if got != want:
                     return f"value {got} at assignment #{i}, expected {want}"
+        if not defined_somewhere:
+            return "pre"          # an operand is undefined under every assignment (e.g. a Zero() factor in a denominator): outside ok(a) & ok(b)
         if out[0] == "raise" and not (self.op == "div" and out[1] == "ZeroDivisionError"):
             return f"raised {out[1]}"
         return None
